@@ -432,7 +432,7 @@ def raise_errors(d, elog, lq):
   return out
 
 
-def observe_director(src, f, qnames, lq=(), keys=None):
+def observe_director(src, f, qnames, lq=(), keys=None, inner_lines=False):
   """Build the real Director as vm.py does and interrogate it."""
   from pytype.directors import directors
   from pytype.errors import errors
@@ -442,7 +442,7 @@ def observe_director(src, f, qnames, lq=(), keys=None):
   d = directors.Director(tree, elog, FN, list(f["glob"]))
   qs, obs = [], []
   for name in qnames:
-    for line in list(range(0, f["n"] + 2)) + [1000000]:
+    for line in (range(1, f["n"] + 1) if inner_lines else list(range(0, f["n"] + 2)) + [1000000]):
       for ret in (False, True):
         if ret and (name != B or not f["funcs"]):
           continue   # find_outermost raises IndexError when the file has no function at all
@@ -522,8 +522,8 @@ def ring2(run, thorough):
     files = small + big
   # errors raised through ErrorLog.error: on every placement of <= 1 directive and on a seeded
   # sample of the pairs
-  nlog = len(small) + (1500 if thorough else 300)
-  raises = {id(f): choose_raises(rng, f, 36 if thorough else 24) for f in files[:nlog]}
+  nlog = len(small) + (1500 if thorough else 200)
+  raises = {id(f): choose_raises(rng, f, 36 if thorough else 20) for f in files[:nlog]}
   cases = judge_dir(run, [(SKELETONS[f["id"] - 1], f) for f in files], "ring2-director",
                     raises=raises)
   nrel = sum(1 for c in cases for u in c["lq"] if u[2] and u[2] != u[1])
@@ -534,7 +534,7 @@ def ring2(run, thorough):
   run.add("errorlog_raises_relocated_suppressed", nsup)
   common.require(nrel >= 2000 and nsup >= 200,
                  "vacuity: %d relocated raises, %d of them suppressed" % (nrel, nsup))
-  cases += ring2_alphabet(run, skf_json=[sk["f"] for sk in SKELETONS])
+  cases += ring2_alphabet(run, [sk["f"] for sk in SKELETONS], thorough)
   return cases
 
 
@@ -569,7 +569,7 @@ def choose_raises(rng, f, n):
   return res[:max(n, 8 * len(dl) * len(names))]
 
 
-def ring2_alphabet(run, skf_json):
+def ring2_alphabet(run, skf_json, thorough=False):
   """Every error class pytype knows, on every line: TLC places ONE directive that names the
   whole alphabet (`# pytype: disable=a,b,c,...`); the Director's answer for every class on every
   line is compared with the spec, whose classification of the classes (function-call /
@@ -590,8 +590,7 @@ def ring2_alphabet(run, skf_json):
                 model_cfg(Mode='"skeleton"', MaxComments=1, MaxSameLine=1, WithStar="FALSE",
                           TrailEnable="FALSE", NameSets='"all"', NAMES=alphabet, CheckFrame="FALSE",
                           Export='"files"',
-                          INVARIANTS=["TypeOK", "DirInvMeaning", "DirInvRun", "DirInvException",
-                                      "DirInvRangesOnly", "ExportInv"]),
+                          INVARIANTS=["TypeOK", "DirInvMeaning", "DirInvRun", "ExportInv"]),
                 workers=1, timeout=6000, heap="8g", env={"SKEL_FILE": skf})
   finally:
     import shutil
@@ -604,7 +603,17 @@ def ring2_alphabet(run, skf_json):
   run.put("states_alphabet", r.distinct)
   # the tables only matter for trailing pytype directives
   files = [f for f in r.cases if f["cs"] and f["cs"][0]["trail"] and f["cs"][0]["cmd"] == "disable"]
-  cont = sum(1 for f in files if any(st[0] < f["cs"][0]["line"] <= st[1] for st in f["stmts"]))
+
+  def on_cont(f):
+    return any(st[0] < f["cs"][0]["line"] <= st[1] for st in f["stmts"])
+  cont = sum(1 for f in files if on_cont(f))
+  if not thorough:
+    # every placement on a continuation line, and per skeleton the first placement on a first line
+    first = {}
+    for f in files:
+      if not on_cont(f):
+        first.setdefault(f["id"], f)
+    files = [f for f in files if on_cont(f) or first[f["id"]] is f]
   run.put("alphabet_classes", len(alphabet))
   run.put("alphabet_placements", len(files))
   run.put("alphabet_placements_on_continuation_lines", cont)
@@ -615,17 +624,17 @@ def ring2_alphabet(run, skf_json):
             "fc": sorted(directors._FUNCTION_CALL_ERRORS),      # pylint: disable=protected-access
             "adj": sorted(directors._ALL_ADJUSTABLE_ERRORS)}    # pylint: disable=protected-access
   return judge_dir(run, [(SKELETONS[f["id"] - 1], f) for f in files], "ring2-alphabet",
-                   names=alphabet, extra=[tables])
+                   names=alphabet, extra=[tables], shards=2, inner_lines=not thorough)
 
 
-def judge_dir(run, pairs, label, raises=None, names=None, extra=()):
+def judge_dir(run, pairs, label, raises=None, names=None, extra=(), shards=None, inner_lines=False):
   cases = []
   raises = raises or {}
   for sk, f in pairs:
     src = render(sk, f["cs"])
     c = {"kind": "dir", "f": f, "skel": sk["name"], "src": src}
     c.update(observe_director(src, f, (names or [W, B, N]) + [O], lq=raises.get(id(f), ()),
-                              keys=names))
+                              keys=names, inner_lines=inner_lines))
     cases.append(c)
   ndir = len(cases)
   cases += list(extra)
@@ -635,7 +644,8 @@ def judge_dir(run, pairs, label, raises=None, names=None, extra=()):
   run.add("director_suppressed_answers", sum(1 for c in dirs for o in c["obs"] if not o[0]))
   run.add("director_retargeted_answers", sum(1 for c in dirs for q, o in zip(c["qs"], c["obs"])
                                              if o[1] != q[1]))
-  bads, divs, obs = validate(run, cases, label, shards=4 if len(cases) > 2000 else 1, names=names)
+  bads, divs, obs = validate(run, cases, label, shards=shards or (4 if len(cases) > 2000 else 1),
+                             names=names)
   run.add("director_cases_exception_observable", len(obs))
   for b in bads:
     c = cases[b["idx"]]
@@ -916,7 +926,7 @@ def e2e_case(place, name, line, src0, src1, res0, res1, ins=(), origin=""):
 
 DIRECTIVE_MARK = ("# pytype:", "# type: ignore")
 _BLOCKS = (ast.FunctionDef, ast.AsyncFunctionDef, ast.ClassDef, ast.Module, ast.If, ast.For,
-           ast.While, ast.With, ast.Try)
+           ast.While, ast.With, ast.Try, ast.Match, ast.AsyncFor, ast.AsyncWith, ast.TryStar)
 
 
 def enclosing_starts(src, line):
@@ -953,13 +963,22 @@ def classify(c, fails, start=()):
   starts = enclosing_starts(src0, line)
   lines0 = src0.split("\n")
   keys = {}
+  reloc = {(e[0], e[1]) for e in c["before"] if len(e) > 4 and e[4] != e[1]}
   for clause, items in fails.items():
     key = "C03:e2e:%s:%s" % (clause, place)
+    if clause in ("remains", "lost") and any((e, l) in reloc for e, l in items):
+      # the error concerned was detected on one line and reported on another
+      key += ":relocated-error"
     if clause in start:
       key = K_START
     elif clause == "gained" and place in ("disable", "ignore") and items and all(
         l < line and l in starts and any(
-            any(m in lines0[l0 - 1] for m in DIRECTIVE_MARK) and l in enclosing_starts(src0, l0)
+            # the evicted directive: `type: ignore`, or a disable naming the re-appearing class,
+            # which must be a function-call class AT THE PINNED COMMIT (only those are kept in
+            # call ranges)
+            ("# type: ignore" in lines0[l0 - 1] or
+             (e in PIN_FC and "# pytype:" in lines0[l0 - 1] and e in lines0[l0 - 1]))
+            and l in enclosing_starts(src0, l0)
             for l0 in range(l + 1, line)) for e, l in items):
       key = K_EVICT
     keys[clause] = key
